@@ -1,9 +1,8 @@
 (* Totality of the field type part of `_create_config` (model: CreateConfig.create_ft):
    a field type tree accepted by the final schema (shape DocValid.ft_doc false, Props/C09.v)
-   that contains no float and no null `mappings` never makes it crash - the claim in the comment
-   of `_Parser._parse` ("the node already has the expected structure").  And the converse side:
-   for the two excluded cases (which the schemas still accept, Props/C09.v `_refuted`), a
-   schema-valid witness on which it does crash. *)
+   never makes it crash - the claim in the comment of `_Parser._parse` ("the node already has the
+   expected structure").  The former crash witnesses (defects repaired in /repo) are rejected by
+   the regenerated schema. *)
 From Coq Require Import List String ZArith Bool Lia.
 Import ListNotations.
 From BT.Front Require Import Json JsonSchema JsonSchemaLemmas DocValid JsonSchemaDoc JsonWitness CreateConfig.
@@ -17,47 +16,6 @@ Lemma oall_ok {A} (f : A -> outcome) l : (forall x, In x l -> f x = Ok) -> oall 
 Proof.
   induction l as [|a l IH]; simpl; intros H; [reflexivity|].
   rewrite (H a (or_introl eq_refl)). simpl. apply IH. intros; apply H; auto.
-Qed.
-
-(* ---- [clean]: no float, no null `mappings`, inherited by sub-documents *)
-Lemma clean_lookup m k x : clean (JObj m) = true -> lookup k m = Some x -> clean x = true.
-Proof.
-  induction m as [|[k' v] m IH]; simpl; [discriminate|]. intros C L.
-  apply andb_true_iff in C. destruct C as [C1 C2]. apply andb_true_iff in C1. destruct C1 as [_ Cv].
-  destruct (String.eqb k k'); [injection L as <-; exact Cv|]. apply IH; assumption.
-Qed.
-Lemma clean_In_arr l x : clean (JArr l) = true -> In x l -> clean x = true.
-Proof.
-  induction l as [|a l IH]; simpl; [contradiction|]. intros C [->|H];
-    apply andb_true_iff in C; destruct C as [Ca Cl]; auto.
-Qed.
-Lemma clean_In_obj m k x : clean (JObj m) = true -> In (k, x) m -> clean x = true.
-Proof.
-  induction m as [|[k' v] m IH]; simpl; [contradiction|]. intros C H.
-  apply andb_true_iff in C. destruct C as [C1 C2]. apply andb_true_iff in C1. destruct C1 as [_ Cv].
-  destruct H as [[= -> ->]|H]; [exact Cv|]. apply IH; assumption.
-Qed.
-Lemma clean_not_null m k :
-  clean (JObj m) = true -> String.eqb k "mappings" = true -> lookup k m <> Some JNull.
-Proof.
-  intros C K. induction m as [|[k' v] m IH]; [discriminate|].
-  cbn [clean] in C. apply andb_true_iff in C. destruct C as [C1 C2].
-  apply andb_true_iff in C1. destruct C1 as [N _].
-  cbn [lookup]. destruct (String.eqb k k') eqn:E.
-  - intros [= ->]. apply String.eqb_eq in E. subst k'. unfold null_mappings in N.
-    cbn [fst snd] in N. rewrite K in N. discriminate N.
-  - apply IH. exact C2.
-Qed.
-Lemma clean_mappings m : clean (JObj m) = true -> lookup "mappings" m <> Some JNull.
-Proof. intros C. apply clean_not_null; [exact C|reflexivity]. Qed.
-Lemma int_val_clean lo hi x : int_val lo hi x -> clean x = true -> int_doc lo hi x.
-Proof.
-  intros (z & A & B) C. destruct x; simpl in A; try discriminate.
-  injection A as ->. exists z. auto.
-Qed.
-Lemma is_int_clean x : is_int false x -> clean x = true -> is_int true x.
-Proof.
-  intros (z & A) C. destruct x; simpl in A; try discriminate. eexists; reflexivity.
 Qed.
 
 (* ---- accessors under the shapes *)
@@ -75,14 +33,14 @@ Proof.
   destruct x; try (right; eexists; split; [reflexivity|split; [reflexivity|exact Px]]). left; reflexivity.
 Qed.
 
-Lemma int_val_not_null lo hi x : int_val lo hi x -> x <> JNull.
-Proof. intros (z & A & _) ->. discriminate A. Qed.
+Lemma int_val_not_null lo hi x : int_doc lo hi x -> x <> JNull.
+Proof. intros (z & -> & _). discriminate. Qed.
 
 Lemma check_alignment_safe m k :
-  clean (JObj m) = true -> optional m k (intP false 1 None) -> safe (check_alignment (pget k m)).
+  optional m k (intP false 1 None) -> safe (check_alignment (pget k m)).
 Proof.
-  intros C O. unfold intP in O. destruct (pget_optional _ _ _ O) as [->|(x & -> & L & I)]; [reflexivity|].
-  destruct (int_val_clean _ _ _ I (clean_lookup _ _ _ C L)) as (z & -> & Hz & _).
+  intros O. unfold intP in O. destruct (pget_optional _ _ _ O) as [->|(x & -> & L & I)]; [reflexivity|].
+  destruct I as (z & -> & Hz & _).
   unfold safe. simpl. destruct (Z.ltb z 1) eqn:E; [apply Z.ltb_lt in E; lia|].
   destruct (is_pow2 z); reflexivity.
 Qed.
@@ -94,55 +52,44 @@ Proof.
 Qed.
 
 Lemma create_int_safe' m :
-  clean (JObj m) = true ->
   required m "size" (intP false 1 (Some 64%Z)) -> optional m "alignment" (intP false 1 None) ->
   optional m "preferred-display-base" (str_in base_names) -> safe (create_int m).
 Proof.
-  intros C S A B. unfold intP in S.
+  intros S A B. unfold intP in S.
   destruct (pget_required _ _ _ S (int_val_not_null _ _)) as (x & Lx & z & Ez & _).
   unfold create_int, create_bit_array, need. rewrite (check_base_safe _ B), Lx. simpl.
   apply oseq_safe.
   - apply oseq_safe; [apply check_alignment_safe; assumption|reflexivity].
-  - destruct (pget "alignment" m); [reflexivity|]. destruct x; simpl in Ez; try discriminate Ez; reflexivity.
+  - destruct (pget "alignment" m); [reflexivity|]. subst x. reflexivity.
 Qed.
 Lemma create_int_safe m classes :
-  clean (JObj m) = true -> int_ft_doc false classes (JObj m) -> safe (create_int m).
+  int_ft_doc false classes (JObj m) -> safe (create_int m).
 Proof.
-  intros C (m' & E & _ & S & A & B & _). injection E as <-. apply create_int_safe'; assumption.
+  intros (m' & E & _ & S & A & B & _). injection E as <-. apply create_int_safe'; assumption.
 Qed.
 
-Lemma as_int_hashable x z : as_int x = Some z -> unhashable x = false.
-Proof. destruct x; simpl; try discriminate; reflexivity. Qed.
-Lemma check_range_ok r : clean r = true -> enum_range (is_int false) r -> check_range r = Ok.
-Proof.
-  intros C [I|(a & b & -> & (za & Ea) & (zb & Eb))].
-  - destruct (is_int_clean _ I C) as (z & ->). reflexivity.
-  - simpl. rewrite (as_int_hashable _ _ Ea), (as_int_hashable _ _ Eb). reflexivity.
-Qed.
-Lemma check_mapping_ok v : clean v = true -> enum_mapping (is_int false) v -> check_mapping v = Ok.
-Proof.
-  intros C (l & -> & _ & R). simpl. apply oall_ok. intros r Hr. apply check_range_ok; auto.
-  exact (clean_In_arr _ _ C Hr).
-Qed.
+Lemma check_range_ok r : enum_range (is_int false) r -> check_range r = Ok.
+Proof. intros [(z & ->)|(a & b & -> & (za & ->) & (zb & ->))]; reflexivity. Qed.
+Lemma check_mapping_ok v : enum_mapping (is_int false) v -> check_mapping v = Ok.
+Proof. intros (l & -> & _ & R). simpl. apply oall_ok. intros r Hr. apply check_range_ok; auto. Qed.
 Lemma pentries_In m k v : In (k, v) (pentries m) -> In (k, v) m.
 Proof. unfold pentries. intros H. apply filter_In in H. tauto. Qed.
 
 Lemma create_enum_safe m classes :
-  clean (JObj m) = true -> enum_ft_doc false classes (JObj m) -> safe (create_enum m).
+  enum_ft_doc false classes (JObj m) -> safe (create_enum m).
 Proof.
-  intros Cl (m' & E & C & S & A & B & (x & Lm & M) & K). injection E as <-.
-  destruct M as [[_ ->]|(mm & -> & _ & R)]; [exfalso; exact (clean_mappings _ Cl Lm)|].
+  intros (m' & E & C & S & A & B & (x & Lm & M) & K). injection E as <-.
+  destruct M as (mm & -> & _ & R).
   unfold create_enum, pget. rewrite Lm. rewrite oall_ok.
   - simpl. apply create_int_safe'; assumption.
-  - intros [k v] Hin. simpl. apply pentries_In in Hin. apply check_mapping_ok; [|exact (R k v Hin)].
-    exact (clean_In_obj _ _ _ (clean_lookup _ _ _ Cl Lm) Hin).
+  - intros [k v] Hin. simpl. apply pentries_In in Hin. apply check_mapping_ok. exact (R k v Hin).
 Qed.
 
 Lemma create_real_safe m :
-  clean (JObj m) = true -> real_ft_doc false (JObj m) -> safe (oseq (create_bit_array m) Ok).
+  real_ft_doc false (JObj m) -> safe (oseq (create_bit_array m) Ok).
 Proof.
-  intros C (m' & E & _ & S & A & _). injection E as <-.
-  assert (NN : forall x, real_size false x -> x <> JNull) by (intros x (z & Ez & _) ->; discriminate Ez).
+  intros (m' & E & _ & S & A & _). injection E as <-.
+  assert (NN : forall x, real_size false x -> x <> JNull) by (intros x [->| ->]; discriminate).
   destruct (pget_required _ _ _ S NN) as (x & Lx & _).
   unfold create_bit_array, need. rewrite Lx.
   apply oseq_safe; [|reflexivity]. apply oseq_safe; [apply check_alignment_safe; assumption|reflexivity].
@@ -167,27 +114,26 @@ Qed.
 
 (* main theorem, by induction on the size of the node: what the current schemas enforce
    ([ft_doc false], Props/C09.v) plus [clean] suffices *)
-Theorem create_ft_total : forall j, ft_doc false j -> clean j = true -> forall fuel, safe (create_ft fuel j).
+Theorem create_ft_total : forall j, ft_doc false j -> forall fuel, safe (create_ft fuel j).
 Proof.
   intros j. remember (jsize j) as n eqn:En. revert j En.
-  induction n as [n IH] using lt_wf_ind. intros j -> H Cl fuel.
+  induction n as [n IH] using lt_wf_ind. intros j -> H fuel.
   destruct fuel as [|fuel]; [reflexivity|].
   destruct (ft_doc_obj _ _ H) as (m & c & -> & Lc).
-  assert (REC : forall x, jsize x < jsize (JObj m) -> ft_doc false x -> clean x = true ->
-                          safe (fst (create_fts fuel x))).
-  { intros x Sx Dx Cx. exact (IH (jsize x) Sx x eq_refl Dx Cx fuel). }
+  assert (REC : forall x, jsize x < jsize (JObj m) -> ft_doc false x -> safe (fst (create_fts fuel x))).
+  { intros x Sx Dx. exact (IH (jsize x) Sx x eq_refl Dx fuel). }
   unfold create_ft. simpl create_fts. unfold create_body.
   destruct (ft_doc_inv _ _ _ H Lc) as [[C D]|[[C D]|[[C D]|[[C D]|[[C D]|[[C D]|[[C D]|[[C D]|[C D]]]]]]]]].
   - rewrite (class_lookup_doc m c uint_names CUint); [|destruct D as (m' & E & R & _); injection E as <-; exact R|exact Lc|class_names_tac].
-    simpl. exact (create_int_safe _ _ Cl D).
+    simpl. exact (create_int_safe _ _ D).
   - rewrite (class_lookup_doc m c sint_names CSint); [|destruct D as (m' & E & R & _); injection E as <-; exact R|exact Lc|class_names_tac].
-    simpl. exact (create_int_safe _ _ Cl D).
+    simpl. exact (create_int_safe _ _ D).
   - rewrite (class_lookup_doc m c uenum_names CUenum); [|destruct D as (m' & E & R & _); injection E as <-; exact R|exact Lc|class_names_tac].
-    simpl. exact (create_enum_safe _ _ Cl D).
+    simpl. exact (create_enum_safe _ _ D).
   - rewrite (class_lookup_doc m c senum_names CSenum); [|destruct D as (m' & E & R & _); injection E as <-; exact R|exact Lc|class_names_tac].
-    simpl. exact (create_enum_safe _ _ Cl D).
+    simpl. exact (create_enum_safe _ _ D).
   - rewrite (class_lookup_doc m c real_names CReal); [|destruct D as (m' & E & R & _); injection E as <-; exact R|exact Lc|class_names_tac].
-    simpl. exact (create_real_safe _ Cl D).
+    simpl. exact (create_real_safe _ D).
   - rewrite (class_lookup_doc m c string_names CString); [|destruct D as (m' & E & R & _); injection E as <-; exact R|exact Lc|class_names_tac].
     reflexivity.
   - (* static array *)
@@ -197,7 +143,7 @@ Proof.
     unfold need. rewrite Lx. simpl.
     unfold create_array, pget. rewrite Le.
     destruct (ft_doc_obj _ _ De) as (me & ce & -> & _).
-    pose proof (REC _ (jsize_lookup _ _ _ Le) De (clean_lookup _ _ _ Cl Le)) as S.
+    pose proof (REC _ (jsize_lookup _ _ _ Le) De) as S.
     destruct (create_fts fuel (JObj me)) as [r oc]. simpl in S.
     destruct r; try discriminate S; try reflexivity. destruct oc as [[]|]; reflexivity.
   - (* dynamic array *)
@@ -205,7 +151,7 @@ Proof.
     simpl. destruct D as (m' & E & _ & (e & Le & De) & _). injection E as <-.
     unfold create_array, pget. rewrite Le.
     destruct (ft_doc_obj _ _ De) as (me & ce & -> & _).
-    pose proof (REC _ (jsize_lookup _ _ _ Le) De (clean_lookup _ _ _ Cl Le)) as S.
+    pose proof (REC _ (jsize_lookup _ _ _ Le) De) as S.
     destruct (create_fts fuel (JObj me)) as [r oc]. simpl in S.
     destruct r; try discriminate S; try reflexivity. destruct oc as [[]|]; reflexivity.
   - (* structure *)
@@ -214,7 +160,7 @@ Proof.
     unfold create_struct. apply oseq_safe; [apply check_alignment_safe; assumption|].
     destruct (pget_optional _ _ _ M) as [->|(x & Lx & Lm & l & -> & Ml)]; [reflexivity|].
     rewrite Lx.
-    pose proof (jsize_lookup _ _ _ Lm) as Sl. pose proof (clean_lookup _ _ _ Cl Lm) as Cll.
+    pose proof (jsize_lookup _ _ _ Lm) as Sl.
     assert (G : forall seen l', (forall e, In e l' -> In e l) -> safe (create_members (create_fts fuel) seen l')).
     { intros seen l'. revert seen. induction l' as [|e l' IHl]; intros seen Sub; [reflexivity|].
       pose proof (Sub e (or_introl eq_refl)) as Ie.
@@ -226,17 +172,13 @@ Proof.
       assert (Sf : jsize (JObj mf) < jsize (JObj m)).
       { pose proof (jsize_lookup _ _ _ Lf) as S1.
         pose proof (jsize_In_arr _ _ Ie) as S2. simpl in S1, S2, Sl |- *. lia. }
-      assert (Cf : clean (JObj mf) = true).
-      { pose proof (clean_In_arr _ _ Cll Ie) as C1.
-        pose proof (clean_In_obj _ name _ C1 (or_introl eq_refl)) as C2.
-        exact (clean_lookup _ _ _ C2 Lf). }
       assert (CL : exists C, class_lookup (JObj mf) = inl C).
       { destruct (ft_doc_inv _ _ _ Df Lcf) as [[C' D']|[[C' D']|[[C' D']|[[C' D']|[[C' D']|[[C' D']|[[C' D']|[[C' D']|[C' D']]]]]]]]];
           destruct D' as (m' & E & R & _); injection E as <-;
           eexists; eapply class_lookup_doc; try exact R; try exact Lcf; class_names_tac. }
       destruct CL as [C2 ->].
       assert (T : safe (oseq (fst (create_fts fuel (JObj mf))) (create_members (create_fts fuel) (name :: seen) l'))).
-      { apply oseq_safe; [exact (REC _ Sf Df Cf)|]. apply IHl. intros e' He'. apply Sub. right; exact He'. }
+      { apply oseq_safe; [exact (REC _ Sf Df)|]. apply IHl. intros e' He'. apply Sub. right; exact He'. }
       destruct C2; try exact T. reflexivity. }
     apply G. auto.
 Qed.
@@ -249,30 +191,17 @@ Definition w_align_float : json :=
 (* former crash witness (repaired): member `a-b: 5` *)
 Definition w_member_val : json :=
   JObj [("class", JStr "struct"); ("members", JArr [JObj [("a-b", JInt 5)]])].
-Lemma w_align_float_valid : VK K_ft w_align_float. Proof. apply VK_eval. vm_compute. reflexivity. Qed.
+Lemma w_align_float_rejected : validate S3 200 (SRef K_ft) w_align_float = Invalid. Proof. vm_compute. reflexivity. Qed.
 Lemma w_member_val_rejected : validate S3 200 (SRef K_ft) w_member_val = Invalid. Proof. vm_compute. reflexivity. Qed.
 
-Lemma crash_enum_null : create_ft 50 w_enum_null = Crash "KeyError". Proof. vm_compute. reflexivity. Qed.
-Lemma crash_align_float : create_ft 50 w_align_float = Crash "TypeError". Proof. vm_compute. reflexivity. Qed.
 
-Lemma refuted_crash (w : json) e : VK K_ft w -> create_ft 50 w = Crash e ->
-  exists j, accepts3 "config/3/field-type#/definitions/ft" j /\ exists fuel e, create_ft fuel j = Crash e.
-Proof. intros A B. exists w. split; [exact A|]. exists 50, e. exact B. Qed.
-
-(* accepted by the final schema, no float, no null `mappings` => the skeleton is total *)
+(* accepted by the final schema => the skeleton is total *)
 Lemma create_ft_total_accepted j :
-  accepts3 "config/3/field-type#/definitions/ft" j -> clean j = true ->
-  forall fuel e, create_ft fuel j <> Crash e.
+  accepts3 "config/3/field-type#/definitions/ft" j -> forall fuel e, create_ft fuel j <> Crash e.
 Proof.
-  intros A C fuel e E. pose proof (create_ft_total j (ft_accepts_doc j A) C fuel) as S.
+  intros A fuel e E. pose proof (create_ft_total j (ft_accepts_doc j A) fuel) as S.
   unfold safe in S. rewrite E in S. discriminate S.
 Qed.
-(* per class, where the schema alone suffices *)
-Lemma create_array_classes_total j :
-  accepts3 "config/3/field-type#/definitions/ft" j -> clean j = true ->
-  forall fuel, is_crash (create_ft fuel j) = false.
-Proof. intros A C fuel. exact (create_ft_total j (ft_accepts_doc j A) C fuel). Qed.
-
 (* string field types: the schema alone suffices *)
 Lemma create_string_total j :
   VK "config/3/field-type#/definitions/string-ft" j -> forall fuel, create_ft (S fuel) j = Ok.
